@@ -44,3 +44,13 @@ pub static mut HLM: bool = false;
 pub fn hlm_stub(_b: &Board) -> bool {
     unsafe { HLM }
 }
+
+/// S4: `core::str::from_utf8` = the reference automaton (its Err payload is never inspected:
+/// both call sites `unwrap()`).
+pub fn from_utf8_model(v: &[u8]) -> Result<&str, core::str::Utf8Error> {
+    if crate::dom::utf8_ok(v, v.len()) {
+        Ok(unsafe { core::str::from_utf8_unchecked(v) })
+    } else {
+        Err(unsafe { core::mem::zeroed() })
+    }
+}
